@@ -250,3 +250,58 @@ def check_constrained_weight(prog, res, fn, weight_name, constraint_cls,
                      covered_elsewhere=covered_elsewhere,
                      precondition=structural_guards(fn.node, call) or [],
                      state_filter=state_filter)
+
+
+# ---------------------------------------------------------------------------
+def check_exact_store(prog, res, fn, var, projector, rule='R1'):
+  """R1 - the strict projection is stored, not re-derived by cancellation.
+
+  `self.<var>` must receive `self.<projector>(self.<var>)` through
+  `.assign(P(v))`.  The algebraically equal `.assign_add(P(v) - v)` computes
+  the difference in the precision of the OLD value: float32 `P(v) - v` is
+  rounded to ulp(|v|), so v + (P(v) - v) lands on a grid of that spacing and
+  equal plateau values of the projection come back unequal (e.g. old
+  [7, -1e8, 100] with projection [3.5, 3.5, 100] is stored as [3.5, 0, 100]).
+  Returns 'assign' / 'assign_add' / None."""
+  import ast as _ast
+  res.analysed(fn)
+  v = 'self.%s' % var
+  p = 'self.%s' % projector
+  kind = None
+  site = None
+  for a in _ast.walk(fn.node):
+    if not (isinstance(a, _ast.Call) and isinstance(a.func, _ast.Attribute)
+            and a.func.attr in ('assign', 'assign_add', 'assign_sub')
+            and dotted(a.func.value) == v and a.args):
+      continue
+    inner = [c for c in _ast.walk(a.args[0]) if isinstance(c, _ast.Call)
+             and dotted(c.func) == p and c.args and dotted(c.args[0]) == v]
+    if not inner:
+      continue
+    site = a
+    arg = a.args[0]
+    if a.func.attr == 'assign' and arg is inner[0]:
+      kind = 'assign'
+    elif a.func.attr == 'assign_add' and isinstance(arg, _ast.BinOp) and \
+        isinstance(arg.op, _ast.Sub) and arg.left is inner[0] and \
+        dotted(arg.right) == v:
+      kind = 'assign_add'
+    else:
+      kind = 'other'
+  key = '%s|%s' % (fn.qualname, var)
+  if kind is None:
+    res.violation('W1', key, fn.loc(),
+                  '%s does not apply %s to %s and store the result' % (
+                      fn.name, p, v))
+    return None
+  res.ok('W1', key, fn.loc(site), '%s(%s) is written back to %s' % (p, v, v))
+  res.check(kind == 'assign', rule, key, fn.loc(site),
+            '%s.assign(%s(%s)): the projection itself is stored' % (v, p, v),
+            '%s is updated by %s: the stored value is v + (P(v) - v) with the '
+            'difference rounded at the magnitude of the old value, so a '
+            'kernel far from the feasible set is stored off the projection '
+            '(plateaus of the projection become unequal, bounds are missed '
+            'by up to ulp(|v|)); use %s.assign(%s(%s))' % (
+                v, '%s(%s(%s) - %s)' % (site.func.attr, p, v, v)
+                if kind == 'assign_add' else norm_text(site)[:60], v, p, v))
+  return kind
